@@ -103,6 +103,51 @@ func c03Validate(c *kit.Case, d *gen.Doc) *kit.XFile {
 func TestVerifC03(t *testing.T) {
 	r := kit.Start(t, "C03")
 	defer r.Finish()
+	// offsets, object-stream indices and object numbers on both sides of the
+	// field-width boundaries of the cross-reference data (2^16, 2^24; 255/256
+	// members of an object stream)
+	r.Phase("width-boundaries", r.N(40, 400), func(c *kit.Case) {
+		cfg := gen.RandomConfig(c.Rng, c.Index%144)
+		cfg.MaxOps = 6 + c.Rng.Intn(20)
+		switch c.Index % 4 {
+		case 0, 1:
+			cfg.PadBytes = 1<<16 - c.Rng.Intn(3000)
+		case 2:
+			cfg.WideObjStm = true
+			cfg.NoObjStm = false
+		case 3:
+			cfg.PadBytes = 1<<16 - c.Rng.Intn(3000)
+			if c.Index%16 == 3 {
+				cfg.PadBytes = 1<<24 - c.Rng.Intn(3000)
+			}
+			cfg.WideObjStm = true
+			cfg.NoObjStm = false
+		}
+		d, err := gen.BuildDoc(c.Rng, cfg)
+		if err != nil {
+			c.Violationf("writer-refused-valid-call", "%v", err)
+			return
+		}
+		xf := c03Validate(c, d)
+		c.R.Count("files_validated", 1)
+		c.R.Count("files_at_width_boundaries", 1)
+		if xf != nil {
+			var below, above int
+			for _, e := range xf.Entries {
+				if e.Type == 1 && e.Offset < 1<<16 {
+					below++
+				} else if e.Type == 1 {
+					above++
+				}
+			}
+			if below > 0 && above > 0 {
+				c.R.Count("files_with_offsets_on_both_sides_of_2^16", 1)
+			}
+			c.Max("file_bytes", float64(len(d.Data)), cfg.String())
+		}
+		c.Distinct(fmt.Sprintf("wb|%s|%s|%d", cfg.Cell(), strings.Join(d.Ops, " "), len(d.Data)))
+	})
+
 	r.Phase("programs", r.N(20000, 600000), func(c *kit.Case) {
 		cell := -1
 		if c.Index < 4*144 {
